@@ -210,6 +210,11 @@ func (e *env) checkNew(res *lib.Result, nc *NewCase) NewObs {
 				Input: nc, Tags: []string{"new", "via:" + nc.Via, "recv:" + recvTag}})
 		}
 	case "reported":
+	case "panic":
+		// a deliberate panic(error) / panic(string) that is not an issue.Reported (e.g. ParseType's
+		// fmt.Errorf): an error report without an issue code.  Counted, not a violation: the property
+		// excludes values outside the type and escaping runtime faults.
+		res.Count("new.uncoded-error")
 	default:
 		res.Violate(lib.Violation{Clause: "new-error-is-reported",
 			What: fmt.Sprintf("%s escaped with an unreported %s: %s", nc.text(), obs.Out.Class, obs.Out.Msg),
